@@ -677,7 +677,23 @@ pub fn check_history(sum: &mut Summary) {
         let (sites, problems) = crate::inventory::scan("/repo");
         let modelled: std::collections::BTreeSet<String> = crate::inventory::MODELLED_SITES.iter().map(|s| s.to_string()).collect();
         sum.extra.insert("hash_iteration_sites_in_source".into(), json!(sites.iter().collect::<Vec<_>>()));
-        if sites != modelled || !problems.is_empty() {
+        // a site is `file:function:expression`; a private function may be renamed or the loop moved within the file
+        // without changing what is iterated, so the comparison is on `file:expression` (with multiplicity)
+        let shape = |set: &std::collections::BTreeSet<String>| -> Vec<String> {
+            let mut v: Vec<String> = set
+                .iter()
+                .map(|s| {
+                    let parts: Vec<&str> = s.splitn(3, ':').collect();
+                    if parts.len() == 3 { format!("{}:{}", parts[0], parts[2]) } else { s.clone() }
+                })
+                .collect();
+            v.sort();
+            v
+        };
+        if sites != modelled && shape(&sites) == shape(&modelled) {
+            sum.extra.insert("hash_iteration_sites_in_other_functions_than_recorded".into(), json!(sites.difference(&modelled).collect::<Vec<_>>()));
+        }
+        if shape(&sites) != shape(&modelled) || !problems.is_empty() {
             let extra: Vec<&String> = sites.difference(&modelled).collect();
             let missing: Vec<&String> = modelled.difference(&sites).collect();
             sum.failures.push(Failure {
